@@ -6,6 +6,7 @@ import (
 	"crypto/rsa"
 	"crypto/sha512"
 	"fmt"
+	"github.com/cloudflare/pat-go/tokens/type5"
 	"math/big"
 
 	"github.com/cloudflare/circl/oprf"
@@ -283,9 +284,38 @@ func c05Run(c *h.Ctx, cfgName string, cfg []*c05Issuer, kinds []string, t1, t2 *
 	}
 }
 
+// impostor claims a carried type without being that type's request
+type c05Impostor struct{ t uint16 }
+
+func (r c05Impostor) Marshal() []byte            { return []byte{0, byte(r.t), 1, 2, 3} }
+func (r c05Impostor) Unmarshal([]byte) bool      { return true }
+func (r c05Impostor) TruncatedTokenKeyID() uint8 { return 1 }
+func (r c05Impostor) Type() uint16               { return r.t }
+
 func runC05(c *h.Ctx) {
 	t1 := newC05Type1(c, "t1")
 	t2 := newC05Type2(c, 0, "t2")
+	// the batch CLIENT refuses to build a batch that is empty or contains a request of a type the batch does not carry
+	{
+		sk5, _ := oprf.DeriveKey(oprf.SuiteRistretto255, oprf.VerifiableMode, rnd(c, 32), nil)
+		i5 := type5.NewBatchedPrivateIssuer(sk5)
+		s5, _ := type5.NewBatchedPrivateClient().CreateTokenRequest(rnd(c, 8), [][]byte{rnd(c, 32)}, i5.TokenKeyID(), i5.TokenKey())
+		s1, _ := type1.NewBasicPrivateClient().CreateTokenRequest(rnd(c, 8), rnd(c, 32), t1.kid, t1.i1.TokenKey())
+		var r5 any = s5.Request()
+		lists := map[string][]tokens.TokenRequestWithDetails{"empty": nil, "empty-non-nil": {}, "impostor-type1": {s1.Request(), c05Impostor{1}}, "impostor-type2": {c05Impostor{2}}, "unknown-type": {s1.Request(), c05Impostor{0x7777}}}
+		if t5, ok := r5.(tokens.TokenRequestWithDetails); ok {
+			lists["type5-request"] = []tokens.TokenRequestWithDetails{s1.Request(), t5}
+		}
+		for name, l := range lists {
+			var br *batched.BatchedTokenRequest
+			var err error
+			pan, msg := h.Protect(func() { br, err = batched.NewBasicClient().CreateTokenRequest(l) })
+			c.Count("client:refused-lists", 1, name)
+			if pan || err == nil || br != nil {
+				c.Violation("the batch client refuses an empty list and requests of types the generic batch does not carry", map[string]any{"list": name, "panic": msg})
+			}
+		}
+	}
 	t1other := newC05Type1(c, "t1-other-key")
 	t2other := newC05Type2(c, 1, "t2-other-key")
 	// a type-1 issuer sharing t1's truncated key id (another key): "first matching issuer that succeeds"
